@@ -186,6 +186,13 @@ pub fn gen_proj(rng: &mut Rng, o: &GenOpts) -> Proj {
             resistance: if i == nmat - 1 && rng.chance(1, 2) { Some(r2(rng, 0.1, 0.3)) } else { None },
         })
         .collect();
+    // air gaps are catalogue materials named "Cámara de aire … N cm": the thickness is read from the name's tail
+    let mut materials = materials;
+    for tail in ["sin ventilar vertical 2 cm", "ligeramente ventilada horizontal 10 cm", "nº1 cm", "de 3 cm²"] {
+        if rng.chance(1, 3) {
+            materials.push(PMat { name: format!("Cámara de aire {}", tail), conductivity: 0.0, density: 0.0, thickness: 0.02, resistance: Some(r2(rng, 0.1, 0.2)) });
+        }
+    }
     let nlay = rng.range(2, 4);
     let layers: Vec<PLayers> = (0..nlay)
         .map(|i| {
@@ -484,6 +491,10 @@ pub fn print_proj(p: &Proj) -> String {
     w("           ..");
     for (fi, f) in p.floors.iter().enumerate() {
         w(&format!("\"{}\" = FLOOR", f.name));
+        if fi % 2 == 0 {
+            w("      X             = 0");
+            w("      Y             = 0");
+        }
         w(&format!("      Z             = {}", f.z));
         w(&format!("      FLOOR-HEIGHT  = {}", f.height));
         w(&format!("      SPACE-HEIGHT  = {}", f.height));
